@@ -18,6 +18,7 @@ package adaptation
 
 import (
 	"fmt"
+	"maps"
 	"slices"
 	"strings"
 
@@ -240,8 +241,17 @@ func (r *result) update(updates []*ContainerUpdate, plugin string) error {
 		if err != nil {
 			return err
 		}
-		if err := r.updateResources(reply, u, plugin); err != nil && !u.IgnoreFailure {
-			return err
+		// an update which is dropped because of an ignored failure must not
+		// leave any of its ownership claims behind
+		var saved *owners
+		if u.IgnoreFailure {
+			saved = r.owners.ownersFor(u.ContainerId).copy()
+		}
+		if err := r.updateResources(reply, u, plugin); err != nil {
+			if !u.IgnoreFailure {
+				return err
+			}
+			r.owners[u.ContainerId] = saved
 		}
 	}
 
@@ -1047,6 +1057,20 @@ func (ro resultOwners) ownersFor(id string) *owners {
 		ro[id] = o
 	}
 	return o
+}
+
+// copy returns a copy of the owners which shares no state with the original.
+func (o *owners) copy() *owners {
+	c := *o
+	c.annotations = maps.Clone(o.annotations)
+	c.mounts = maps.Clone(o.mounts)
+	c.devices = maps.Clone(o.devices)
+	c.cdiDevices = maps.Clone(o.cdiDevices)
+	c.env = maps.Clone(o.env)
+	c.hugepageLimits = maps.Clone(o.hugepageLimits)
+	c.unified = maps.Clone(o.unified)
+	c.rlimits = maps.Clone(o.rlimits)
+	return &c
 }
 
 func (ro resultOwners) claimAnnotation(id, key, plugin string) error {
